@@ -1,11 +1,11 @@
 SPECIFICATION ISpec
 CONSTANTS Kind = "hashmap"
- Keys = {1, 2}
+ Keys = {1, 2, 3}
  Vals = {1, 2}
  CapArgs = {1, 2}
  MaxBlocks = 1
- UVars = {1, 2}
- BVars = {1, 2}
+ UVars = {1}
+ BVars = {}
  OpSet <- AllOps
 INVARIANTS RefinementOK ChainsOK OrderOK FreeOK StoresOK TypeOK
 VIEW IView
